@@ -40,12 +40,12 @@ def replay(prop, payload, path, project=proj_kinds):
 
 class DelegPart:
     """correspondence part for runner.run_coexec"""
-    def __init__(self, prop, gen, what, n_quick=50, n_thorough=400, rule=""):
-        self.prop, self.gen, self.what, self.rule = prop, gen, what, rule
+    def __init__(self, prop, gen, what, n_quick=50, n_thorough=400, rule="", directed=None):
+        self.prop, self.gen, self.what, self.rule, self.directed = prop, gen, what, rule, directed
         self.crate = "deleg" + prop[1:]
         self.n = {"quick": n_quick, "thorough": n_thorough}
 
     def __call__(self, rng, tier, seed, cases):
-        dcases = [self.gen(rng) for _ in range(self.n[tier])]
+        dcases = (self.directed() if self.directed else []) + [self.gen(rng) for _ in range(self.n[tier])]
         n, payload = run_part(self.prop, self.crate, dcases, seed, self.what)
         return n, payload, {"receiver_part": {"evaluations": n, "rule": self.rule}}
